@@ -6,12 +6,12 @@ VERIF="$(cd "$(dirname "$0")/.." && pwd)"
 VENV="$VERIF/.venv"
 exec 9>"$VERIF/.venv.lock"
 flock 9
-if [ -x "$VENV/bin/python" ] && "$VENV/bin/python" -c "import z3, crosshair, esrally" 2>/dev/null; then
+if [ -x "$VENV/bin/python" ] && "$VENV/bin/python" -c "import z3, crosshair, esrally, cvc5" 2>/dev/null; then
   exit 0
 fi
 rm -rf "$VENV"
 /venv/bin/python -m venv "$VENV"
 SP="$VENV/lib/python3.12/site-packages"
 echo "import site; site.addsitedir('/venv/lib/python3.12/site-packages')" > "$SP/_base.pth"
-PIP_NO_INDEX=1 "$VENV/bin/pip" install -q --no-index --find-links /opt/veriftools/wheels z3-solver crosshair-tool >/dev/null
+PIP_NO_INDEX=1 "$VENV/bin/pip" install -q --no-index --find-links /opt/veriftools/wheels z3-solver crosshair-tool cvc5 >/dev/null
 "$VENV/bin/python" -c "import z3, crosshair; print('setup ok: z3', z3.get_version_string())"
